@@ -1,15 +1,15 @@
 # C16 — additional-layer store: lookup / use / release in any order
 PROPS["C16"] = dict(
     props_file="Properties/C16.v",
-    harnesses=[dict(cmd="store", mod="root", model="Model.Store", quick=200, thorough=12000, shard=25, race=400,
+    harnesses=[dict(cmd="store", mod="root", model="Model.StoreRef", quick=200, thorough=12000, shard=25, race=400,
                     require=["op.lookup.diff", "op.lookup.blob", "op.lookup.racing", "op.info", "op.use", "op.release",
                              "op.loadref", "op.resolve", "op.probe", "op.expire", "op.racerel", "fault.manifest", "fault.blob",
                              "fault.blob.delivered", "result.lookup.ok", "result.lookup.fail.unknown", "result.lookup.fail.fault",
                              "result.release.layerzero", "result.release.imagezero", "result.relookup.ok", "result.release.err",
-                             "result.racerel.gate", "result.racerel.dropped"]),
+                             "result.racerel.gate", "result.racerel.dropped", "result.racerel.errgate"]),
                dict(cmd="storefs", mod="root", model="Model.StoreFS", quick=96, thorough=6000, shard=12, race=200,
                     require=["op.lookup.diff", "op.lookup.blob", "op.lookup.info", "op.lookup.use", "op.lookup.other", "op.use",
-                             "op.createother", "op.rmdir", "op.badref", "op.baddigest", "op.pool", "op.expire", "fault.manifest",
+                             "op.createother", "op.rmdir", "op.badref", "op.alias", "op.baddigest", "op.pool", "op.expire", "fault.manifest",
                              "fault.blob", "result.lookup.ok", "result.lookup.served-from-tree", "result.lookup.fail.unknown",
                              "result.lookup.fail.fault", "result.rmdir.layerzero", "result.rmdir.imagezero", "result.relookup.ok"])],
     rule="store: corpus of 9 hand-written histories + random histories (3..22 ops) of lookup(diff|blob) / info / use / release, the sub-steps of "
@@ -32,7 +32,9 @@ PROPS["C16"] = dict(
         "otherwise it succeeds iff the blob fetch succeeds and the blob is eStargz, and the resulting layer's TOC digest is that of the blob",
         "layer.Verify(d) on a layer cached under TOC digest d succeeds (C01 is the property about Verify)",
         "refPool's LRU of 30 manifests never evicts in the histories driven (at most 4 refs); the manifest stays readable once fetched",
-        "Layer.Done() is what dropping a layer means; the harness observes the map entry disappearing, not the call",
+        "Layer.Done() calls are modelled (coq/Model/StoreRef.v: handles on the objects of the resolver's TTL cache, closed when out of the cache "
+        "and without handle - C10's theorem about util/cacheutil taken as the contract); the harness observes their effect as Check() of every "
+        "layer the manager holds after every op",
     ],
     level_text="Coq theorems over every history of lookup/info/use/release and of the sub-steps of getLayer (so every interleaving of racing lookups at "
                "resolveLayer granularity), every registry and every fault script, on the model of the repaired LayerManager (invariant by induction over "
@@ -43,7 +45,9 @@ PROPS["C16"] = dict(
                "(each handler step = at most one manager call named from the node tree, errno a function of its result; every handler history is a manager "
                "history), so all clauses hold under the handlers, plus: a diff/blob node in the tree is always backed by a layer the manager holds (C16-fix-3; "
                "refuted for the code before it, F27), the last rmdir of an image leaves no node of it and the next lookup is a manager lookup again; the pre-fix-4 "
-               "split of resolveLayer is refuted (F28) and the repaired schedule proved harmless. Both models are run against the implementation every run.",
+               "split of resolveLayer is refuted (F28) and the repaired schedule proved harmless. Phase 3: with the handles of the resolver's TTL cache in the model, "
+               "every layer the manager holds is held through an outstanding handle on an open object in every reachable state (the manager never gives back a "
+               "handle it keeps; refuted for the variant that does). All models are run against the implementation every run.",
     level_note="Model (coq/Model/Store.v) is hand-written; the implementation is driven in-package (verif hook) over a real fs/layer.Resolver with real "
                "eStargz blobs, an in-memory registry (http.RoundTripper for manifests, remote.Handler for blobs); the FUSE node handlers of store/fs.go are driven "
                "through go-fuse's NodeFS bridge without a mount (no kernel, no dentry cache, no FORGET); Go-level data races are outside the model.",
